@@ -155,17 +155,20 @@ def run_case(desc):
             ok_rows = np.isfinite(sd) & np.isfinite(mu) & (sd > 0)
             if ok_rows.any():
                 Qs = Q[ok_rows]
-                s1 = np.asarray(reg.sample_y(Qs, n_samples=3, random_state=5))
-                s2 = np.asarray(reg.sample_y(Qs, n_samples=3, random_state=5))
+                rs_a = [5, 0][(desc["seed"] >> 11) % 2]          # 0 is a seed like any other
+                if hasattr(reg, "random_state"):
+                    reg.set_params(random_state=None) if (desc["seed"] >> 12) % 2 else None   # the call's seed decides
+                s1 = np.asarray(reg.sample_y(Qs, n_samples=3, random_state=rs_a))
+                s2 = np.asarray(reg.sample_y(Qs, n_samples=3, random_state=rs_a))
                 if s1.shape != (len(Qs), 3):
                     add("sample_y-wrong-shape", "%s != %s" % (s1.shape, (len(Qs), 3)))
                 if not np.array_equal(s1, s2, equal_nan=True):
-                    add("sample_y-not-reproducible", "two calls with random_state=5 differ")
+                    add("sample_y-not-reproducible", "two calls with random_state=%d differ" % rs_a)
                 s3 = np.asarray(reg.sample_y(Qs, n_samples=3, random_state=6))
                 # a spread below the rounding unit of the mean legitimately yields samples equal to the mean
                 wide = (sd[ok_rows] > 1e-9 * (1.0 + np.abs(mu[ok_rows]))).any()
                 if wide and s1.shape == s3.shape and np.array_equal(s1, s3):
-                    add("sample_y-ignores-random_state", "random_state=5 and 6 give identical samples")
+                    add("sample_y-ignores-random_state", "random_state=%d and 6 give identical samples" % rs_a)
         # ---- documented fall-back of the wrappers
         if name.startswith("sk"):
             contracts.count("C15.fallback-contract")
